@@ -80,7 +80,17 @@ WireFrames ==
                     t \in {Escape(<<cs>>), Escape(<<cs ^^ 1>>)} \cup (IF cs # FLAG THEN {<<cs>>} ELSE {}) }
              : n \in {L - 1, L, L + 1} \cap 0..1023 }
 
-Frames == IF kind = "wire" THEN WireFrames ELSE {f}
+\* the same wire bodies extended by one forcing byte that makes the checksum 7D, sent escaped and raw:
+\* escape pairs and the tolerated raw-7D checksum in one frame
+WireForced ==
+    LET x  == WireHdr[hv]
+        u  == Lenient(f)
+        hb == HeaderBytes(x, Len(u) + 1)
+        z  == XorAll(hb \o u) ^^ 125
+    IN IF z \in {125, 126} THEN {}
+       ELSE { <<FLAG>> \o Escape(hb) \o f \o <<z>> \o t \o <<FLAG>> : t \in {<<125>>, <<125, 1>>, <<125, 2>>} }
+
+Frames == IF kind = "wire" THEN WireFrames \cup WireForced ELSE {f}
 Domain == {g \in Frames : NoInteriorFlag(g)}
 
 View(g) == LET d == Decode(g) IN
